@@ -315,12 +315,25 @@ func listingScenarios(dir string) (string, string) {
 			return "listing/invented", "the listing reports a key that was never put"
 		}
 	}
+	for i := 10; i < 22; i++ { // more keys than the listing's channel buffers: the sender is still at work when the listing is cancelled
+		bs.Put(bg, ccBlock(i))
+	}
 	ctx, cancel := context.WithCancel(context.Background())
 	defer cancel()
-	if _, err := bs.AllKeysChan(ctx); err != nil {
+	ch2, err := bs.AllKeysChan(ctx)
+	if err != nil {
 		return "listing/error", err.Error()
 	}
+	<-ch2
 	cancel()
+	// a consumer that ranges over the listing must come to an end: a cancelled listing closes its channel
+	if cls, msg := within("ranging over a cancelled listing until its channel is closed", func() error {
+		for range ch2 {
+		}
+		return nil
+	}); cls != "" {
+		return cls, msg
+	}
 	if cls, msg := within("Put after an abandoned (cancelled) listing", func() error { return bs.Put(bg, ccBlock(4)) }); cls != "" {
 		return cls, msg
 	}
